@@ -200,6 +200,13 @@ func (s *Subscription) Loaded(resourceSub *rescache.ResourceSubscription, err er
 			return
 		}
 
+		// Quick exit if already loaded. A subscriber of a query resource may
+		// be passed the loaded resource twice, when another query normalized
+		// to the same query is loaded at the same time.
+		if s.resourceSub != nil {
+			return
+		}
+
 		s.resourceSub = resourceSub
 		s.typ = resourceSub.GetResourceType()
 		s.state = stateLoaded
